@@ -451,6 +451,12 @@ def c20_isolation(r, seed, tier, model_ok):
                 i = R.choice(idx); ws2 = list(ws); ws2[i] = SW[ws[i]]; progs.append(dict(text=layout(ws2, cuts)))       # near-copy: one name changed, same lines and columns elsewhere
     g = slices_values.EqGen(R)
     for _ in range(N(tier, 40, 400)): progs.append(dict(text=g.prog()[0]))
+    # functions of two DIFFERENT kinds compared and used as the keys of one dictionary: identity is per object, not a per-kind serial number whose
+    # coincidences depend on how many functions of each kind the process has made so far
+    for ka_ in sorted(set(slices_values.FUN_KINDS)):
+        for kb_ in sorted(set(slices_values.FUN_KINDS)):
+            fa_, fb_ = g.render(("fun", ka_, 0)), g.render(("fun", kb_, 1))
+            progs += [dict(text=f"{fa_} {fb_} ㄴㅎㄷ"), dict(text=f"{fa_} ㄴ {fb_} ㄷ ㅅㅈㅎㅁ ㅈㄷㅎㄴ"), dict(text=f"({fa_} {fa_} ㄴㅎㄷ) ({fa_} {fb_} ㄴㅎㄷ) ({fb_} {fb_} ㄴㅎㄷ) ㅁㄹㅎㄹ")]
     for _ in range(N(tier, 30, 300)):
         t, _, _ = slices_core.io_text_closed(R, R.randrange(1, 4)); progs.append(dict(text=t, stdin="".join(R.choice(["a", "bc", ""]) + "\n" for _ in range(R.randrange(0, 4)))))
     imps = ["ㄴ ㄷ ㅂㅎㄷ", "ㄹ ㅂㅎㄴ", "ㅁ (ㄴ ㄷ ㅂㅎㄷ) ㅎㄴ", "ㄴ ㄷ ㅂㅎㄷ ㄴ ㄷ ㅂㅎㄷ ㄴㅎㄷ", "ㅈ ㅂㅎㄴ", "ㄱ (ㄹ ㅂㅎㄴ) ㅎㄴ"]
